@@ -57,11 +57,26 @@ POPS = {
     "unfold_dim": (1, lambda L, t, a: t[0].unfold(a["dim"], a["size"], a["step"]),
                    lambda x, a: np.moveaxis(np.lib.stride_tricks.sliding_window_view(x[0], a["size"], axis=a["dim"]),
                                             -1, -1)[tuple(slice(None, None, a["step"]) if i == a["dim"] % x[0].ndim else slice(None) for i in range(x[0].ndim))]),
+    # nn geometry / normalisation ops inside programs (constant kernels are derived from a seed so that the program stays JSON)
+    "avgpool1d": (1, lambda L, t, a: L.sg.avg_pool1d(t[0], a["k"], a["s"], a["p"]), lambda x, a: R.pool_nd(x[0], a["k"], a["s"], a["p"], 1, 1, "avg")),
+    "conv1d_const": (1, lambda L, t, a: L.sg.conv1d(t[0], L.Tensor(_const_w(a, t[0].shape[1])), None, a["s"], a["p"], a["d"]),
+                     lambda x, a: R.conv_nd(x[0], _const_w(a, x[0].shape[1]), None, a["s"], a["p"], a["d"], 1)),
+    "conv1d_w": (2, lambda L, t, a: L.sg.conv1d(t[0], t[1], None, 1, a["p"], 1), lambda x, a: R.conv_nd(x[0], x[1], None, 1, a["p"], 1, 1)),
+    "batch_norm_train": (1, lambda L, t, a: L.sg.batch_norm(t[0], None, None, None, None, True, 0.1, 1e-5),
+                         lambda x, a: R.batch_norm(x[0], None, None, None, None, True, 0.1, 1e-5)[0]),
+    "unfold2d": (1, lambda L, t, a: L.sg.unfold(t[0], a["k"], 1, a["s"], a["p"]), lambda x, a: R.unfold(x[0], a["k"], 1, a["s"], a["p"])),
+    "bce_logits": (2, lambda L, t, a: L.sg.binary_cross_entropy_with_logits(t[0], L.sg.sigmoid(t[1])),
+                   lambda x, a: R.bce_logits(x[0], R.sigmoid(x[1]))),
     # piecewise-linear ops: only generated with a margin from the kink (values checked at generation time)
     "relu": (1, lambda L, t, a: L.sg.relu(t[0]), lambda x, a: np.maximum(x[0], 0)),
     "max": (1, lambda L, t, a: t[0].max(a["dim"], a["keepdims"]), lambda x, a: np.max(x[0], axis=a["dim"], keepdims=a["keepdims"])),
 }
 KINKED = {"relu", "max"}
+
+
+def _const_w(a, cin):
+    r = np.random.default_rng(int(a["wseed"]))
+    return r.standard_normal((int(a["co"]), int(cin), int(a["k"])))
 
 
 def run_numpy(prog, leaf_vals):
@@ -136,7 +151,7 @@ def stats(prog):
 
 def generate(rng, n_instr, n_leaves, allow_kinks=False, big=False, leaves=None, init=None, join=True):
     """init = (prog, numpy values of every value id) continues an existing program (used for histories over shared leaves)"""
-    shapes_pool = [[3], [2, 3], [3, 3], [2, 2, 3], [1, 3], [3, 1], [], [4]] if not big else [[6, 5], [5, 5], [4, 6, 5], [30], [5]]
+    shapes_pool = [[3], [2, 3], [3, 3], [2, 2, 3], [1, 3], [3, 1], [], [4], [2, 2, 5], [1, 2, 3, 3], [2, 2, 2]] if not big else [[6, 5], [5, 5], [4, 6, 5], [30], [5]]
     if init is not None:
         prog0, vals0 = init
         leaves = prog0["leaves"]
@@ -244,9 +259,29 @@ def generate(rng, n_instr, n_leaves, allow_kinks=False, big=False, leaves=None, 
             elif op == "linear":
                 if x[1].ndim != 2 or x[0].ndim < 1 or x[2].ndim != 1:
                     continue
-            elif op == "mse":
+            elif op in ("mse", "bce_logits"):
                 if x[0].shape != x[1].shape:
                     continue
+            elif op == "avgpool1d":
+                if r != 3 or x[0].shape[2] < 2:
+                    continue
+                args = {"k": 2, "s": int(rng.integers(1, 3)), "p": int(rng.integers(0, 2))}
+            elif op == "conv1d_const":
+                if r != 3:
+                    continue
+                k_ = int(rng.integers(1, min(3, x[0].shape[2]) + 1))
+                args = {"co": int(rng.integers(1, 3)), "k": k_, "s": int(rng.integers(1, 3)), "p": int(rng.integers(0, 2)), "d": 1, "wseed": int(rng.integers(1 << 30))}
+            elif op == "conv1d_w":
+                if r != 3 or x[1].ndim != 3 or x[1].shape[1] != x[0].shape[1] or x[1].shape[2] > x[0].shape[2] + 2:
+                    continue
+                args = {"p": 1}
+            elif op == "batch_norm_train":
+                if r < 2 or x[0].size // x[0].shape[1] < 2 or np.min(np.var(np.moveaxis(x[0], 1, 0).reshape(x[0].shape[1], -1), axis=1)) < 1e-2:
+                    continue
+            elif op == "unfold2d":
+                if r != 4 or min(x[0].shape[2:]) < 2:
+                    continue
+                args = {"k": 2, "s": int(rng.integers(1, 3)), "p": int(rng.integers(0, 2))}
             if isinstance(args.get("dim"), tuple):
                 args["dim"] = list(args["dim"])
             a_eval = dict(args)
